@@ -348,6 +348,11 @@ func (lib *testCaseLibrary) filterGRPCImplTestCases(testCases []*conformancev1.T
 			continue
 		}
 
+		if testCase.Request.GetMethod() == "IdempotentUnary" {
+			// not implemented by the gRPC implementations
+			continue
+		}
+
 		if testCase.Request.RawRequest != nil && clientIsGRPCImpl {
 			continue
 		}
